@@ -290,14 +290,15 @@ fn mk_input(rng: &mut StdRng, v: u8, owner: Option<Address>, asset: AssetId, nwi
     let wi = if strict || rng.gen_bool(0.7) { if nwit == 0 { 0 } else { rng.gen_range(0..nwit) } } else { rng.gen() };
     let pcode = |rng: &mut StdRng| code.cloned().unwrap_or_else(|| rbs(rng, strict));
     let amount = |rng: &mut StdRng| if strict { 1000 + rng.gen::<u32>() as u64 } else { amount(rng) };
+    let pgu = |rng: &mut StdRng| if strict { rng.gen_range(0..1000u64) } else { rng.gen::<u64>() };
     match v % 7 {
         0 => Input::coin_signed(utxo(rng), own, amount(rng), asset, txp(rng), wi),
-        1 => { let p = pcode(rng); Input::coin_predicate(utxo(rng), own, amount(rng), asset, txp(rng), rng.gen(), p, rbs(rng, false)) }
+        1 => { let p = pcode(rng); Input::coin_predicate(utxo(rng), own, amount(rng), asset, txp(rng), pgu(rng), p, rbs(rng, false)) }
         2 => Input::contract(utxo(rng), Bytes32::from(r32(rng)), Bytes32::from(r32(rng)), txp(rng), ContractId::from(r32(rng))),
         3 => Input::message_coin_signed(Address::from(r32(rng)), own, amount(rng), Nonce::from(r32(rng)), wi),
-        4 => { let p = pcode(rng); Input::message_coin_predicate(Address::from(r32(rng)), own, amount(rng), Nonce::from(r32(rng)), rng.gen(), p, rbs(rng, false)) }
+        4 => { let p = pcode(rng); Input::message_coin_predicate(Address::from(r32(rng)), own, amount(rng), Nonce::from(r32(rng)), pgu(rng), p, rbs(rng, false)) }
         5 => Input::message_data_signed(Address::from(r32(rng)), own, amount(rng), Nonce::from(r32(rng)), wi, rbs(rng, strict)),
-        _ => { let p = pcode(rng); Input::message_data_predicate(Address::from(r32(rng)), own, amount(rng), Nonce::from(r32(rng)), rng.gen(), rbs(rng, strict), p, rbs(rng, false)) }
+        _ => { let p = pcode(rng); Input::message_data_predicate(Address::from(r32(rng)), own, amount(rng), Nonce::from(r32(rng)), pgu(rng), rbs(rng, strict), p, rbs(rng, false)) }
     }
 }
 
@@ -317,7 +318,7 @@ fn has_owner(i: &Input) -> bool { i.input_owner().is_some() }
 fn mk_policies(rng: &mut StdRng, mask: u8, owner_idx: Option<u64>, strict_height: Option<u32>, max_fee: u64) -> Policies {
     let mut p = Policies::new();
     if mask & 1 != 0 { p = p.with_tip(if strict_height.is_some() { rng.gen_range(0..1000) } else { amount(rng) }); }
-    if mask & 2 != 0 { p = p.with_witness_limit(if strict_height.is_some() { [u64::MAX, 1 << 20, 100_000][rng.gen_range(0..3)] } else { amount(rng) }); }
+    if mask & 2 != 0 { p = p.with_witness_limit(if strict_height.is_some() { [10_000u64, 100_000, 20_000][rng.gen_range(0..3)] } else { amount(rng) }); }
     if mask & 4 != 0 { p = p.with_maturity(match strict_height { Some(h) => rng.gen_range(0..=h), None => rng.gen() }.into()); }
     if mask & 8 != 0 { p = p.with_max_fee(if strict_height.is_some() { max_fee } else { amount(rng) }); }
     if mask & 16 != 0 { p = p.with_expiration(match strict_height { Some(h) => rng.gen_range(h..=u32::MAX), None => rng.gen() }.into()); }
@@ -359,7 +360,7 @@ fn free_parts(rng: &mut StdRng, k: u64, code: &Vec<u8>) -> Parts {
 
 fn small_params(rng: &mut StdRng, k: u64) -> ConsensusParameters {
     let mut p = ConsensusParameters::standard();
-    p.set_tx_params(TxParameters::DEFAULT.with_max_inputs([8u16, 16, 255, 9][(k % 4) as usize]));
+    p.set_tx_params(TxParameters::DEFAULT.with_max_inputs([8u16, 16, 255, 9][(k % 4) as usize]).with_max_gas_per_tx(1 << 50));
     p.set_chain_id(match k % 3 { 0 => 0u64, 1 => rng.gen::<u64>(), _ => rng.gen_range(1..1000) }.into());
     p.set_base_asset_id(if k % 2 == 0 { AssetId::from(r32(rng)) } else { AssetId::zeroed() });
     match k % 4 { 0 => {} 1 => p.set_gas_costs(GasCosts::unit()), _ => p.set_gas_costs(random_gas(rng, if k % 4 == 2 { 9 } else { 400 })) }
@@ -407,12 +408,12 @@ where
 {
     let ip = InterpreterParams::new(rng.gen_range(0..5), params);
     let mut vm = VmT::<Tx>::with_storage(MemoryInstance::new(), MemoryStorage::default(), ip);
-    let program = match RuntimePredicate::from_tx(&tx, vm.tx_offset(), pidx) { Some(p) => p, None => { out.ev(json!({"ev": "Skip", "run": run, "why": "no predicate at index"})); return; } };
+    let program = match RuntimePredicate::from_tx(&tx, vm.tx_offset(), pidx) { Some(p) => p, None => { eprintln!("vmmeta: run {} skipped: {}", run, "no predicate at index"); return; } };
     let context = if estimation { Context::PredicateEstimation { program } } else { Context::PredicateVerification { program } };
     let r = catch(std::panic::AssertUnwindSafe(|| vm.init_predicate(context, tx, 1_000_000).map_err(|e| format!("{e:?}"))));
     match r {
         Ok(Ok(())) => {}
-        Ok(Err(e)) => { out.ev(json!({"ev": "Skip", "run": run, "why": e})); return; }
+        Ok(Err(e)) => { eprintln!("vmmeta: run {} skipped: {}", run, e); return; }
         Err(m) => { out.ev(json!({"ev": "Seg"})); out.ev(json!({"ev": "HostPanic", "run": run, "where": "init_predicate", "msg": m})); return; }
     }
     out.ev(json!({"ev": "Seg"}));
@@ -506,7 +507,7 @@ fn script_sessions(o: &Opts, out: &mut Out, run: &mut u64) {
         let sdata = rbs(&mut rng, false);
         let tx = valid_script(&mut rng, k, &params, code.clone(), sdata, &[], height, 1_000_000);
         *run += 1;
-        let checked = match tx.into_checked_basic(height.into(), &params) { Ok(c) => c, Err(e) => { out.ev(json!({"ev": "Skip", "run": *run, "why": format!("{e:?}")})); continue; } };
+        let checked = match tx.into_checked_basic(height.into(), &params) { Ok(c) => c, Err(e) => { eprintln!("vmmeta: run {} skipped: {e:?}", *run); continue; } };
         let gas_price = rng.gen_range(0..3u64);
         let ready = match checked.clone().into_ready(gas_price, params.gas_costs(), params.fee_params(), Some(height.into())) {
             Ok(r) => r, Err(_) => checked.test_into_ready(),
@@ -514,7 +515,7 @@ fn script_sessions(o: &Opts, out: &mut Out, run: &mut u64) {
         let mut st = MemoryStorage::default();
         st.set_block_height(height.into());
         let mut vm = VmT::<Script>::with_storage(MemoryInstance::new(), st, InterpreterParams::new(gas_price, &params));
-        if let Err(e) = vm.init_script(ready) { out.ev(json!({"ev": "Skip", "run": *run, "why": format!("{e:?}")})); continue; }
+        if let Err(e) = vm.init_script(ready) { eprintln!("vmmeta: run {} skipped: {e:?}", *run); continue; }
         out.ev(json!({"ev": "Seg"}));
         emit_init(out, *run, &vm, json!({"kind": "script", "pidx": 0, "frames": []}), json!({"driver": "script"}));
         let txe: Transaction = vm.transaction().clone().into();
@@ -549,9 +550,9 @@ fn call_sessions(o: &Opts, out: &mut Out, run: &mut u64) {
         let height = u32::from(tb.get_block_height());
         let tx = valid_script(&mut rng, k, &params, script, data, &[ca, cb], height, 1_000_000);
         *run += 1;
-        let checked = match tx.into_checked_basic(height.into(), &params) { Ok(c) => c, Err(e) => { out.ev(json!({"ev": "Skip", "run": *run, "why": format!("{e:?}")})); continue; } };
+        let checked = match tx.into_checked_basic(height.into(), &params) { Ok(c) => c, Err(e) => { eprintln!("vmmeta: run {} skipped: {e:?}", *run); continue; } };
         let gas_price = (k % 3) as u64;
-        let ready = match checked.into_ready(gas_price, params.gas_costs(), params.fee_params(), Some(height.into())) { Ok(r) => r, Err(e) => { out.ev(json!({"ev": "Skip", "run": *run, "why": format!("{e:?}")})); continue; } };
+        let ready = match checked.into_ready(gas_price, params.gas_costs(), params.fee_params(), Some(height.into())) { Ok(r) => r, Err(e) => { eprintln!("vmmeta: run {} skipped: {e:?}", *run); continue; } };
         let mut vm = VmT::<Script>::with_storage(MemoryInstance::new(), tb.get_storage().clone(), InterpreterParams::new(gas_price, &params));
         vm.set_single_stepping(true);
         let mut state = match catch(std::panic::AssertUnwindSafe(|| vm.transact(ready).map(|s| *s.state()))) {
@@ -567,7 +568,7 @@ fn call_sessions(o: &Opts, out: &mut Out, run: &mut u64) {
             if fp != last_fp { if fp > last_fp { depth += 1; } else { depth = depth.saturating_sub(1); } last_fp = fp; }
             steps += 1;
         }
-        if depth != want_depth { out.ev(json!({"ev": "Skip", "run": *run, "why": format!("depth {depth} state {:?}", state.as_ref().map(|_| ()).map_err(|e| format!("{e:?}")))})); continue; }
+        if depth != want_depth { eprintln!("vmmeta: run {} skipped: depth {depth} state {:?}", *run, state.as_ref().map(|_| ()).map_err(|e| format!("{e:?}"))); continue; }
         vm.set_single_stepping(false);
         let frames: Vec<String> = Backtrace::from_vm_error(&vm, ScriptExecutionResult::Success).call_stack().iter().map(|f| hx(f.to())).collect();
         out.ev(json!({"ev": "Seg"}));
